@@ -14,7 +14,8 @@ class Gate(object):
         self.total = total
         self.limit = 0
         self.closed = False
-        self.policy = policy        # 'short': hand out what is there; 'none': answer None unless n octets are there
+        self.policy = policy        # 'short': hand out what is there; 'none': answer None unless n octets are there;
+                                    # 'none0': as 'none', and None to a zero-octet read while nothing more has arrived
         self.log = []
         self.unsatisfied = False    # a read since the last reset was answered with None or fewer octets than asked
         self.reads = 0
@@ -35,6 +36,11 @@ class Gate(object):
                 return 0 if (self.closed and self.limit >= self.total) else None
             return avail
         if n == 0:
+            # a read of no octets: a stream with the 'none0' policy answers "no data yet" to that as well while nothing
+            # has arrived beyond the position (the repository's own non-blocking test double says None to every other
+            # read whatever its size)
+            if self.policy == 'none0' and avail <= 0 and not (self.closed and self.limit >= self.total):
+                return None
             return 0
         if avail >= n:
             return n
@@ -42,7 +48,7 @@ class Gate(object):
             return 0 if (self.closed and self.limit >= self.total) else None
         if self.closed and self.limit >= self.total:
             return avail
-        return avail if self.policy == 'short' else None
+        return avail if self.policy == 'short' else None      # 'none' and 'none0'
 
 
 class SeekableSched(io.BytesIO):
